@@ -159,8 +159,15 @@ def op_pipeline(data, serialize_kw):
         src = io.BytesIO(data)
         t = OFXTree()
         root = t.parse(src)
+        if src.closed:
+            raise K1("the caller's stream was closed by parse")
         if src.getvalue() != data:
             raise K1("source bytes changed by parse")
+        # the same stream object, rewound, parses to the same tree again
+        src.seek(0)
+        again = OFXTree().parse(src)
+        if dump_tree(again) != dump_tree(root):
+            raise K1("parsing the same (rewound) stream a second time gives a different tree")
         before = dump_tree(root)
         inst = t.convert()
         if dump_tree(root) != before:
@@ -187,6 +194,8 @@ def op_header(data):
         from ofxtools.header import parse_header
         src = io.BytesIO(data)
         hdr, body = parse_header(src)
+        if src.closed:
+            raise K1("the caller's stream was closed by parse_header")
         if src.getvalue() != data:
             raise K1("source bytes changed by parse_header")
         return {"header": [type(hdr).__name__, str(hdr)], "body": body}
